@@ -5,6 +5,7 @@ From Coq Require Import List Arith Bool Lia Permutation.
 From PTN Require Import TTN.Store TTN.StoreProofs TTN.Canon TTN.CanonProofs TTN.Inv TTN.InvProofs TTN.InvNode
   TTN.InvContract TTN.InvSplit TTN.CanonTree TTN.CanonMore TTN.CanonStep TTN.CanonDist TTN.CanonPath TTN.CanonIso
   Tree.RTree Evo.BUGStore.
+From PTN Require Sched.BUG Contr.Blocks Contr.Closed Contr.ClosedProofs.
 Import ListNotations.
 
 Lemma split_replace_bug s n p b ch opens ta tb s' nd0 pn :
@@ -914,3 +915,762 @@ Proof.
   induction l as [|c r IH]; intros g; [reflexivity|]. cbn [update_children].
   destruct (update_node fixed bcoff rid c g cv cc); [apply IH|reflexivity].
 Qed.
+
+
+Lemma update_node_eq fixed bcoff tmp n kids g pv pc : update_node fixed bcoff tmp (RNode n kids) g pv pc =
+  match aget n (vnodes pv) with
+  | None => None
+  | Some pn0 =>
+      match parent pn0 with
+      | None => None
+      | Some p =>
+          if negb (match pc with Some c0 => Nat.eqb c0 p | None => false end) then None else
+          match move_center (focus g pv, pc) n Keep tmp with
+          | None => None
+          | Some (s1, cc) =>
+              let cv := view_of s1 in
+              let g1 := focus s1 (view_of g) in
+              match aget n (vnodes cv) with
+              | None => None
+              | Some cn =>
+                  if nilb (children cn) then (if nilb kids then update_leaf fixed bcoff n g1 cv pv else None)
+                  else if negb (perm_ofb (map RTree.rid kids) (children cn)) then None
+                       else match update_children fixed bcoff tmp kids g1 cv cc with
+                            | None => None
+                            | Some g2 => update_non_leaf_rest fixed bcoff n g2 cv pv
+                            end
+              end
+          end
+      end
+  end.
+Proof.
+  cbn [update_node].
+  destruct (aget n (vnodes pv)) as [pn0|]; [|reflexivity].
+  destruct (parent pn0) as [p|]; [|reflexivity].
+  destruct (negb _); [reflexivity|].
+  destruct (move_center _ _ _ _) as [[s1 cc]|]; [|reflexivity].
+  cbv zeta. cbn [view_of vnodes].
+  destruct (aget n (nodes s1)) as [cn|]; [|reflexivity].
+  destruct (nilb (children cn)); [reflexivity|].
+  destruct (negb _); [reflexivity|].
+  rewrite loop_eq. reflexivity.
+Qed.
+
+Section Main.
+  Variables (fixed : bool) (bcoff : nat) (tmp : id).
+  Notation bc := (bcid bcoff).
+  Notation rid := RTree.rid.
+
+  Definition agree (L T0 : list (id * node)) (k : id) : Prop :=
+    exists a b, aget k L = Some a /\ aget k T0 = Some b /\ parent a = parent b /\ Permutation (children a) (children b).
+
+  Definition bc_fresh (T0 : list (id * node)) : Prop := forall k, In k (akeys T0) -> aget (bc k) T0 = None.
+
+  (* the identifiers of a processed subtree: children as in T0 up to order; the parent as in T0, except that the
+     subtree's root hangs under its basis-change node *)
+  Definition post (T0 L' : list (id * node)) (t : rtree) : Prop :=
+    forall k, In k (ids t) -> exists a b, aget k L' = Some a /\ aget k T0 = Some b /\
+      Permutation (children a) (children b) /\
+      parent a = (if Nat.eqb k (rid t) then Some (bc (rid t)) else parent b).
+
+  Record node_effect (T0 : list (id * node)) (t : rtree) (p : id) (pn : node) (g g' : store) : Prop := {
+    ne_nd : NoDup (akeys (nodes g'));
+    ne_post : post T0 (nodes g') t;
+    ne_bc : exists bn, aget (bc (rid t)) (nodes g') = Some bn /\ parent bn = Some p /\ children bn = [rid t];
+    ne_p : aget p (nodes g') = Some (with_children pn (replace_first (rid t) (bc (rid t)) (children pn)));
+    ne_frame : forall k, ~ In k (ids t) -> k <> p -> k <> bc (rid t) -> aget k (nodes g') = aget k (nodes g);
+    ne_root : root g' = root g;
+    ne_tens : forall k, ~ In k (ids t) -> ~ In k (map bc (ids t)) -> aget k (tensors g') = aget k (tensors g);
+    ne_grows : grows g g';
+    ne_q : forall k, In k (ids t) -> Qnode g' k
+  }.
+
+  Definition P (t : rtree) : Prop := forall g pv pc g' T0 p pn,
+    update_node fixed bcoff tmp t g pv pc = Some g' ->
+    tstruct T0 -> bc_fresh T0 -> tree_of T0 t -> NoDup (ids t) ->
+    (exists n0, aget (rid t) T0 = Some n0 /\ parent n0 = Some p) ->
+    ~ In p (ids t) -> In p (akeys T0) ->
+    NoDup (akeys (nodes g)) ->
+    (forall k, In k (ids t) -> agree (nodes g) T0 k) ->
+    (forall k, In k (ids t) -> aget (bc k) (nodes g) = None) ->
+    aget p (nodes g) = Some pn -> parent pn <> Some (rid t) ->
+    tstruct (vnodes pv) -> same_tree T0 (vnodes pv) -> aget tmp (vnodes pv) = None ->
+    node_effect T0 t p pn g g'.
+
+  Lemma agree_key L T0 k : agree L T0 k -> In k (akeys T0).
+  Proof. intros (a & b & _ & E & _). eapply aget_Some_keys; eauto. Qed.
+
+  Lemma fresh_ne T0 x y : bc_fresh T0 -> In x (akeys T0) -> In y (akeys T0) -> bc x <> y.
+  Proof. intros F Hx Hy E. specialize (F x Hx). rewrite E in F. apply aget_None in F. contradiction. Qed.
+
+  Lemma in_flat_ids c l k : In c l -> In k (ids c) -> In k (flat_map ids l).
+  Proof. intros Hc Hk. apply in_flat_map. exists c. auto. Qed.
+
+  Lemma rid_in_ids t : In (rid t) (ids t).
+  Proof. destruct t. cbn. auto. Qed.
+
+  (* ---- the children loop --------------------------------------------------------------------------------------- *)
+  Lemma children_loop : forall l, Forall P l -> forall g g2 cv cc T0 n nn00 dn,
+    update_children fixed bcoff tmp l g cv cc = Some g2 ->
+    tstruct T0 -> bc_fresh T0 -> Forall (tree_of T0) l -> NoDup (flat_map ids l) ->
+    (forall c, In c l -> exists c0, aget (rid c) T0 = Some c0 /\ parent c0 = Some n) ->
+    ~ In n (flat_map ids l) -> In n (akeys T0) ->
+    NoDup (akeys (nodes g)) ->
+    (forall k, In k (flat_map ids l) -> agree (nodes g) T0 k) ->
+    (forall k, In k (flat_map ids l) -> aget (bc k) (nodes g) = None) ->
+    NoDup (children nn00) -> (forall z, In z (children nn00) -> In z (akeys T0)) ->
+    (forall c, In c l -> ~ In (rid c) dn) ->
+    aget n (nodes g) = Some (with_children nn00 (map (sub bcoff dn) (children nn00))) ->
+    (forall c, In c l -> parent nn00 <> Some (rid c)) ->
+    tstruct (vnodes cv) -> same_tree T0 (vnodes cv) -> aget tmp (vnodes cv) = None ->
+    NoDup (akeys (nodes g2)) /\
+    (forall c, In c l -> post T0 (nodes g2) c) /\
+    (forall c, In c l -> exists bn, aget (bc (rid c)) (nodes g2) = Some bn /\ parent bn = Some n /\ children bn = [rid c]) /\
+    aget n (nodes g2) = Some (with_children nn00 (map (sub bcoff (rev (map rid l) ++ dn)) (children nn00))) /\
+    (forall k, ~ In k (flat_map ids l) -> k <> n -> ~ In k (map bc (map rid l)) -> aget k (nodes g2) = aget k (nodes g)) /\
+    root g2 = root g /\
+    (forall k, ~ In k (flat_map ids l) -> ~ In k (map bc (flat_map ids l)) -> aget k (tensors g2) = aget k (tensors g)) /\
+    grows g g2 /\
+    (forall k, In k (flat_map ids l) -> Qnode g2 k).
+  Proof.
+    induction l as [|c r IH]; intros HP g g2 cv cc T0 n nn00 dn H T F Htr Hnd Hpar Hn HnK HndL Hag Hbcf Hch HchK Hdn En Hpp Tcv Scv Rcv.
+    - cbn in H. injection H as <-. cbn [map rev app flat_map].
+      split; [exact HndL|]. split; [intros c []|]. split; [intros c []|]. split; [exact En|].
+      split; [auto|]. split; [reflexivity|]. split; [auto|]. split; [apply grows_refl|]. intros k [].
+    - cbn [update_children] in H.
+      destruct (update_node fixed bcoff tmp c g cv cc) as [ga|] eqn:Ec; [|discriminate].
+      inversion HP as [|? ? Pc Pr]; subst. inversion Htr as [|? ? Tc Tr]; subst.
+      cbn [flat_map] in Hnd, Hn, Hag, Hbcf. apply NoDup_app_iff in Hnd. destruct Hnd as (Ndc & Ndr & Ndis).
+      set (pn := with_children nn00 (map (sub bcoff dn) (children nn00))) in *.
+      assert (E : node_effect T0 c n pn g ga).
+      { apply (Pc g cv cc ga T0 n pn Ec T F Tc Ndc (Hpar c (or_introl eq_refl))); auto.
+        - intros Hc. apply Hn. apply in_or_app. left. exact Hc.
+        - intros k Hk. apply Hag. apply in_or_app. left. exact Hk.
+        - intros k Hk. apply Hbcf. apply in_or_app. left. exact Hk.
+        - unfold pn. cbn. apply Hpp. left. reflexivity. }
+      destruct E as [E1 E2 E3 E4 E5 E6 E7 E8 E9].
+      assert (Krc : In (rid c) (akeys T0)).
+      { destruct (Hpar c (or_introl eq_refl)) as (c0 & Ec0 & _). eapply aget_Some_keys; eauto. }
+      assert (KeyC : forall k, In k (ids c) -> In k (akeys T0)).
+      { intros k Hk. apply (agree_key (nodes g)). apply Hag. apply in_or_app. left. exact Hk. }
+      assert (KeyR : forall k, In k (flat_map ids r) -> In k (akeys T0)).
+      { intros k Hk. apply (agree_key (nodes g)). apply Hag. apply in_or_app. right. exact Hk. }
+      assert (Ena : aget n (nodes ga) = Some (with_children nn00 (map (sub bcoff (rid c :: dn)) (children nn00)))).
+      { rewrite E4. unfold pn. cbn [with_children children parent perm shape]. unfold with_children. cbn. f_equal. f_equal.
+        apply replace_first_sub; [exact Hch|apply Hdn; left; reflexivity|].
+        intros z Hz. apply (fresh_ne T0); auto. }
+      assert (FrameR : forall k, In k (flat_map ids r) -> aget k (nodes ga) = aget k (nodes g)).
+      { intros k Hk. apply E5.
+        - intros Hc. apply (Ndis k Hc Hk).
+        - intros ->. apply Hn. apply in_or_app. right. exact Hk.
+        - intros ->. apply (fresh_ne T0 (rid c) (bc (rid c)) F Krc); [apply KeyR; exact Hk|reflexivity]. }
+      destruct (IH Pr ga g2 cv cc T0 n nn00 (rid c :: dn) H T F Tr Ndr) as (R1 & R2 & R3 & R4 & R5 & R6 & R7 & R8 & R9); auto.
+      { intros c' Hc'. apply Hpar. right. exact Hc'. }
+      { intros Hc. apply Hn. apply in_or_app. right. exact Hc. }
+      { intros k Hk. unfold agree. rewrite (FrameR k Hk). apply Hag. apply in_or_app. right. exact Hk. }
+      { intros k Hk. rewrite E5.
+        - apply Hbcf. apply in_or_app. right. exact Hk.
+        - intros Hc. apply (fresh_ne T0 k (bc k) F (KeyR k Hk)); [apply KeyC; exact Hc|reflexivity].
+        - intros E. apply (fresh_ne T0 k n F (KeyR k Hk) HnK). exact E.
+        - intros E. apply bc_inj in E. subst k. apply (Ndis (rid c) (rid_in_ids c) Hk). }
+      { intros c' Hc' [E|Hin].
+        - apply (Ndis (rid c)); [apply rid_in_ids|]. rewrite E. apply (in_flat_ids c' r); [exact Hc'|apply rid_in_ids].
+        - apply (Hdn c' (or_intror Hc') Hin). }
+      { intros c' Hc'. apply Hpp. right. exact Hc'. }
+      assert (FrameC : forall k, In k (ids c) \/ k = bc (rid c) -> aget k (nodes g2) = aget k (nodes ga)).
+      { intros k Hk. apply R5.
+        - intros Hc. destruct Hk as [Hk| ->]; [apply (Ndis k Hk Hc)|].
+          apply (fresh_ne T0 (rid c) (bc (rid c)) F Krc); [apply KeyR; exact Hc|reflexivity].
+        - intros ->. destruct Hk as [Hk|E]; [apply Hn; apply in_or_app; left; exact Hk|].
+          apply (fresh_ne T0 (rid c) n F Krc HnK). symmetry. exact E.
+        - intros Hc. apply in_map_iff in Hc. destruct Hc as (z & Ez & Hz). apply in_map_iff in Hz. destruct Hz as (c' & <- & Hc').
+          destruct Hk as [Hk|E].
+          + apply (fresh_ne T0 (rid c') k F); [|apply KeyC; exact Hk|exact Ez].
+            apply KeyR. apply (in_flat_ids c' r); [exact Hc'|apply rid_in_ids].
+          + rewrite E in Ez. apply bc_inj in Ez. apply (Ndis (rid c)); [apply rid_in_ids|].
+            rewrite <- Ez. apply (in_flat_ids c' r); [exact Hc'|apply rid_in_ids]. }
+      split; [exact R1|].
+      split.
+      { intros c' [<-|Hc']; [|apply R2; exact Hc']. intros k Hk. rewrite (FrameC k (or_introl Hk)). apply E2. exact Hk. }
+      split.
+      { intros c' [<-|Hc']; [|apply R3; exact Hc']. rewrite (FrameC _ (or_intror eq_refl)). exact E3. }
+      split.
+      { rewrite R4. cbn [map rev]. rewrite <- app_assoc. reflexivity. }
+      split.
+      { intros k K1 K2 K3. cbn [map flat_map] in K1, K3. rewrite R5.
+        - apply E5; [intros Hc; apply K1; apply in_or_app; left; exact Hc|exact K2|intros ->; apply K3; left; reflexivity].
+        - intros Hc. apply K1. apply in_or_app. right. exact Hc.
+        - exact K2.
+        - intros Hc. apply K3. right. exact Hc. }
+      split; [congruence|].
+      split.
+      { intros k K1 K2. cbn [flat_map] in K1, K2. rewrite map_app in K2. rewrite R7.
+        - apply E7; [intros Hc; apply K1; apply in_or_app; left; exact Hc|intros Hc; apply K2; apply in_or_app; left; exact Hc].
+        - intros Hc. apply K1. apply in_or_app. right. exact Hc.
+        - intros Hc. apply K2. apply in_or_app. right. exact Hc. }
+      split; [eapply grows_trans; eauto|].
+      intros k Hk. cbn [flat_map] in Hk. apply in_app_or in Hk. destruct Hk as [Hk|Hk]; [|apply R9; exact Hk].
+      apply (Qnode_frame ga g2 k (E9 k Hk)); [apply (gr_defs _ _ R8)| |].
+      + intros nd End. exists nd. rewrite (FrameC k (or_introl Hk)). auto.
+      + apply R7.
+        * intros Hc. apply (Ndis k Hk Hc).
+        * intros Hc. apply in_map_iff in Hc. destruct Hc as (z & Ez & Hz).
+          apply (fresh_ne T0 z k F); [apply KeyR; exact Hz|apply KeyC; exact Hk|exact Ez].
+  Qed.
+
+  Lemma in_map_rid_flat kids x : In x (map rid kids) -> In x (flat_map ids kids).
+  Proof. intros H. apply in_map_iff in H. destruct H as (c & <- & Hc). apply (in_flat_ids c kids _ Hc). apply rid_in_ids. Qed.
+
+  Theorem update_node_effect : forall t, P t.
+  Proof.
+    induction t as [n kids IH] using rtree_ind2.
+    intros g pv pc g' T0 p pn H T F Htr Hnd (n0 & En0 & Pn0) Hpt HpK HndL Hag Hbcf Ep Hpp Tpv Spv Rpv.
+    rewrite update_node_eq in H. cbn [RTree.rid] in *.
+    inversion Htr as [? ? nd0 End0 Hkids Hforall]; subst. rewrite En0 in End0. injection End0 as <-.
+    destruct (same_tree_some _ _ _ _ Spv En0) as (pn0 & Epv & Ppv & Cpv). rewrite Epv, <- Ppv, Pn0 in H.
+    destruct (negb _); [discriminate|].
+    destruct (move_center (focus g pv, pc) n Keep tmp) as [[s1 cc]|] eqn:Em; [|discriminate].
+    destruct (move_center_struct (focus g pv, pc) n Keep tmp (s1, cc) Tpv Rpv Em) as (T1 & S1 & R1).
+    pose proof (move_center_grows _ _ _ _ _ Em) as Gm. cbn [fst focus nodes] in T1, S1, R1, Gm.
+    cbv zeta in H. set (cv := view_of s1) in *. set (g1 := focus s1 (view_of g)) in *.
+    assert (Gr1 : grows g g1).
+    { apply grows_focus_r. destruct Gm as [A1 A2 A3 A4]. constructor; assumption. }
+    assert (Scv : same_tree T0 (vnodes cv)) by (apply (same_tree_trans _ _ _ Spv S1)).
+    destruct (same_tree_some _ _ _ _ Scv En0) as (cn & Ecv & Pcv & Ccv). rewrite Ecv in H.
+    cbn [ids] in Hnd, Hpt, Hag, Hbcf. inversion Hnd as [|? ? Hnk Hndk]; subst.
+    destruct (Hag n (or_introl eq_refl)) as (a & b & Ea & Eb & Pa & Ca). rewrite En0 in Eb. injection Eb as <-.
+    assert (Hnp : n <> p) by (intros ->; apply Hpt; left; reflexivity).
+    assert (Ebc : aget (bc n) (nodes g) = None) by (apply Hbcf; left; reflexivity).
+    assert (HnK : In n (akeys T0)) by (eapply aget_Some_keys; eauto).
+    assert (KeyI : forall k, In k (n :: flat_map ids kids) -> In k (akeys T0)).
+    { intros k Hk. apply (agree_key (nodes g)). apply Hag. exact Hk. }
+    assert (Pa' : parent a = Some p) by congruence.
+    destruct (nilb (children cn)) eqn:Hleaf.
+    - (* update_leaf_node *)
+      destruct kids as [|k0 kids0]; [|discriminate]. cbn [nilb] in H.
+      assert (Hcn : children cn = []) by (destruct (children cn); [reflexivity|discriminate]).
+      assert (Hca : children a = []).
+      { apply Permutation_nil. symmetry. rewrite Ca, Ccv, Hcn. reflexivity. }
+      destruct (update_leaf_effect fixed bcoff n p g1 cv pv g' a pn H HndL Ea Pa' Hca Ep Hpp Ebc Hnp)
+        as (nn & bn & L1 & L2 & L3 & L4 & L5 & L6 & L7 & L8 & L9 & L10 & L11).
+      { exists cn. split; [exact Ecv|congruence]. }
+      constructor; cbn [RTree.rid ids flat_map].
+      + exact L7.
+      + intros k [<-|[]]. exists nn, n0. rewrite L1, (eqb_false n p), !Nat.eqb_refl by exact Hnp.
+        split; [reflexivity|]. split; [exact En0|]. split; [rewrite L3, <- Ca, Hca; reflexivity|exact L2].
+      + exists bn. rewrite L1, (eqb_false (bc n) p), (eqb_false (bc n) n), Nat.eqb_refl.
+        * auto.
+        * intros E. rewrite E in Ebc. congruence.
+        * intros E. rewrite E in Ebc. congruence.
+      + rewrite L1, Nat.eqb_refl. reflexivity.
+      + intros k K1 K2 K3. rewrite L1, (eqb_false k p), (eqb_false k n), (eqb_false k (bc n)); auto.
+        intros ->. apply K1. left. reflexivity.
+      + exact L8.
+      + intros k K1 K2. apply L10; [intros ->; apply K1; left; reflexivity|intros ->; apply K2; left; reflexivity].
+      + eapply grows_trans; eauto.
+      + intros k [<-|[]]. exact L11.
+    - (* update_non_leaf_node *)
+      destruct (negb _); [discriminate|].
+      destruct (update_children fixed bcoff tmp kids g1 cv cc) as [g2|] eqn:Eloop; [|discriminate].
+      assert (NdA : NoDup (children a)).
+      { apply (Permutation_NoDup (Permutation_sym Ca)). apply (ts_chnd _ T n n0 En0). }
+      assert (InA : forall z, In z (children a) <-> In z (map rid kids)).
+      { intros z. split; intros Hz.
+        - apply (Permutation_in _ (Permutation_sym Hkids)). apply (Permutation_in _ Ca). exact Hz.
+        - apply (Permutation_in _ (Permutation_sym Ca)). apply (Permutation_in _ Hkids). exact Hz. }
+      assert (KeyA : forall z, In z (children a) -> In z (akeys T0)).
+      { intros z Hz. apply KeyI. right. apply in_map_rid_flat. apply InA. exact Hz. }
+      assert (ParK : forall z, In z (children a) -> exists c0, aget z T0 = Some c0 /\ parent c0 = Some n).
+      { intros z Hz. apply (ts_ch _ T n n0 z En0). apply (Permutation_in _ Ca). exact Hz. }
+      destruct (children_loop kids IH g1 g2 cv cc T0 n a [] Eloop T F Hforall Hndk)
+        as (K1 & K2 & K3 & K4 & K5 & K6 & K7 & K8 & K9); auto.
+      { intros c Hc. apply ParK. apply InA. apply in_map. exact Hc. }
+      { intros k Hk. apply Hag. right. exact Hk. }
+      { intros k Hk. apply Hbcf. right. exact Hk. }
+      { cbn [g1 focus nodes view_of vnodes]. rewrite map_sub_nil, with_children_same. exact Ea. }
+      { intros c Hc. rewrite Pa'. intros E. injection E as E. apply Hpt. right. rewrite E. apply in_map_rid_flat. apply in_map. exact Hc. }
+      rewrite app_nil_r in K4.
+      rewrite (map_sub_all bcoff _ (children a)) in K4 by (intros z Hz; rewrite <- in_rev; apply InA; exact Hz).
+      set (X := children a) in *.
+      assert (XI : forall x, In x X -> In x (flat_map ids kids)) by (intros x Hx; apply in_map_rid_flat; apply InA; exact Hx).
+      assert (Ep2 : aget p (nodes g2) = Some pn).
+      { rewrite K5; [exact Ep| | |].
+        - intros Hc. apply Hpt. right. exact Hc.
+        - congruence.
+        - intros Hc. apply in_map_iff in Hc. destruct Hc as (z & Ez & Hz). apply (fresh_ne T0 z p F); [|exact HpK|exact Ez].
+          apply KeyI. right. apply in_map_rid_flat. exact Hz. }
+      assert (Eb2 : aget (bc n) (nodes g2) = None).
+      { rewrite K5; [exact Ebc| | |].
+        - intros Hc. apply (fresh_ne T0 n (bc n) F HnK); [apply KeyI; right; exact Hc|reflexivity].
+        - intros E. apply (fresh_ne T0 n n F HnK HnK). exact E.
+        - intros Hc. apply in_map_iff in Hc. destruct Hc as (z & Ez & Hz). apply bc_inj in Ez. subst z.
+          apply Hnk. apply in_map_rid_flat. exact Hz. }
+      assert (A1 : ~ In n X) by (intros Hc; apply Hnk; apply XI; exact Hc).
+      assert (A2 : ~ In n (map bc X)).
+      { intros Hc. apply in_map_iff in Hc. destruct Hc as (z & Ez & Hz). apply (fresh_ne T0 z n F); auto. }
+      assert (A3 : forall x x', In x X -> In x' X -> bc x' <> x) by (intros x x' Hx Hx'; apply (fresh_ne T0); auto).
+      assert (A4 : forall x, In x X -> exists bn, aget (bc x) (nodes g2) = Some bn /\ parent bn = Some n /\ children bn = [x]).
+      { intros x Hx. apply InA in Hx. apply in_map_iff in Hx. destruct Hx as (c & <- & Hc). apply K3. exact Hc. }
+      assert (A5 : ~ In p X) by (intros Hc; apply Hpt; right; apply XI; exact Hc).
+      assert (A6 : ~ In p (map bc X)).
+      { intros Hc. apply in_map_iff in Hc. destruct Hc as (z & Ez & Hz). apply (fresh_ne T0 z p F); auto. }
+      assert (A7 : ~ In (bc n) X) by (intros Hc; apply (fresh_ne T0 n (bc n) F HnK); [apply KeyA; exact Hc|reflexivity]).
+      destruct (update_non_leaf_rest_effect fixed bcoff n p X g2 cv pv g' (with_children a (map bc X)) pn H K1 NdA A1 A2 A3 K4 Pa' eq_refl
+                  A4 Ep2 Hpp Eb2 Hnp A5 A6 A7) as (nn & bn & M1 & M2 & M3 & M4 & M5 & M6 & M7 & M8 & M9 & M10 & M11).
+      (* lookups of subtree identifiers below n in the final dictionary *)
+      assert (Look : forall k, In k (flat_map ids kids) ->
+                aget k (nodes g') = if memb k X then option_map (fun xn => with_parent xn (Some n)) (aget k (nodes g2))
+                                    else aget k (nodes g2)).
+      { intros k Hk. rewrite M1.
+        assert (K_p : k <> p) by (intros ->; apply Hpt; right; exact Hk).
+        assert (K_n : k <> n) by (intros ->; contradiction).
+        assert (K_b : k <> bc n) by (intros ->; apply (fresh_ne T0 n (bc n) F HnK); [apply KeyI; right; exact Hk|reflexivity]).
+        rewrite (eqb_false k p), (eqb_false k n), (eqb_false k (bc n)) by assumption.
+        assert (M : memb k (map bc X) = false).
+        { apply memb_false. intros Hc. apply in_map_iff in Hc. destruct Hc as (z & Ez & Hz).
+          apply (fresh_ne T0 z k F); [apply KeyA; exact Hz|apply KeyI; right; exact Hk|exact Ez]. }
+        rewrite M. reflexivity. }
+      constructor; cbn [RTree.rid ids].
+      + exact M7.
+      + unfold post. cbn [RTree.rid ids]. intros k [<-|Hk].
+        * exists nn, n0. rewrite M1, (eqb_false n p), !Nat.eqb_refl by exact Hnp.
+          split; [reflexivity|]. split; [exact En0|]. split; [rewrite M3; exact Ca|exact M2].
+        * apply in_flat_map in Hk. destruct Hk as (c & Hc & Hk).
+          destruct (K2 c Hc k Hk) as (a' & b' & Ea' & Eb' & Ca' & Pa2).
+          assert (K_n : k <> n) by (intros E; apply Hnk; rewrite <- E; apply (in_flat_ids c kids k Hc Hk)).
+          rewrite (Look k (in_flat_ids c kids k Hc Hk)), Ea'.
+          destruct (memb k X) eqn:MX.
+          -- apply memb_In in MX. destruct (ParK k MX) as (c0 & Ec0 & Pc0). rewrite Eb' in Ec0. injection Ec0 as <-.
+             exists (with_parent a' (Some n)), b'. rewrite (eqb_false k n) by exact K_n. cbn. auto.
+          -- apply memb_false in MX. exists a', b'. rewrite (eqb_false k n) by exact K_n.
+             split; [reflexivity|]. split; [exact Eb'|]. split; [exact Ca'|].
+             rewrite Pa2. destruct (Nat.eqb_spec k (rid c)) as [E|_]; [|reflexivity].
+             exfalso. apply MX. apply InA. rewrite E. apply in_map. exact Hc.
+      + exists bn. rewrite M1, (eqb_false (bc n) p), (eqb_false (bc n) n), Nat.eqb_refl.
+        * auto.
+        * intros E. apply (fresh_ne T0 n n F HnK HnK). exact E.
+        * intros E. apply (fresh_ne T0 n p F HnK HpK). exact E.
+      + rewrite M1, Nat.eqb_refl. reflexivity.
+      + intros k Q1 Q2 Q3. rewrite M1, (eqb_false k p), (eqb_false k (bc n)) by assumption.
+        assert (K_n : k <> n) by (intros ->; apply Q1; left; reflexivity).
+        rewrite (eqb_false k n) by exact K_n.
+        destruct (memb k (map bc X)) eqn:MB.
+        * apply memb_In in MB. apply in_map_iff in MB. destruct MB as (z & <- & Hz). symmetry. apply Hbcf. right. apply XI. exact Hz.
+        * apply memb_false in MB. destruct (memb k X) eqn:MX.
+          -- apply memb_In in MX. exfalso. apply Q1. right. apply XI. exact MX.
+          -- rewrite K5; [reflexivity| |exact K_n|].
+             ++ intros Hc. apply Q1. right. exact Hc.
+             ++ intros Hc. apply MB. apply in_map_iff in Hc. destruct Hc as (z & <- & Hz). apply in_map. apply InA. exact Hz.
+      + rewrite M8, K6. reflexivity.
+      + intros k Q1 Q2. cbn [map] in Q2. rewrite M10.
+        * rewrite K7; [reflexivity|intros Hc; apply Q1; right; exact Hc|intros Hc; apply Q2; right; exact Hc].
+        * intros ->. apply Q1. left. reflexivity.
+        * intros ->. apply Q2. left. reflexivity.
+        * intros Hc. apply Q2. right. apply in_map_iff in Hc. destruct Hc as (z & <- & Hz). apply in_map. apply XI. exact Hz.
+      + eapply grows_trans; [exact Gr1|]. eapply grows_trans; eauto.
+      + intros k [<-|Hk]; [exact M11|].
+        apply (Qnode_frame g2 g' k (K9 k Hk)); [apply (gr_defs _ _ M9)| |].
+        * intros nd End. rewrite (Look k Hk), End. destruct (memb k X); eexists; split; reflexivity.
+        * apply M10.
+          -- intros ->. contradiction.
+          -- intros ->. apply (fresh_ne T0 n (bc n) F HnK); [apply KeyI; right; exact Hk|reflexivity].
+          -- intros Hc. apply in_map_iff in Hc. destruct Hc as (z & Ez & Hz).
+             apply (fresh_ne T0 z k F); [apply KeyA; exact Hz|apply KeyI; right; exact Hk|exact Ez].
+  Qed.
+End Main.
+
+
+(* ---- on a rooted tree the neighbour one step closer to the root is the parent ------------------------------------ *)
+Lemma dist_parent_root s r rn : tstruct (nodes s) -> aget r (nodes s) = Some rn -> parent rn = None ->
+  forall m k kn q, dget (distance_to_node s r) k <= m -> aget k (nodes s) = Some kn -> parent kn = Some q ->
+  S (dget (distance_to_node s r) q) = dget (distance_to_node s r) k.
+Proof.
+  intros T Er Pr. assert (Hr : amem r (nodes s) = true) by (apply amem_aget; eauto).
+  induction m as [|m IH]; intros k kn q Hm Ek Pk.
+  - assert (Hkr : k <> r) by (intros ->; congruence).
+    destruct (dist_step s r k kn T Hr Ek Hkr) as (nb & _ & Hd & _). lia.
+  - assert (Hkr : k <> r) by (intros ->; congruence).
+    destruct (dist_step s r k kn T Hr Ek Hkr) as (nb & Hin & Hd & Hoth).
+    destruct (Nat.eq_dec nb q) as [->|Hne]; [exact Hd|]. exfalso.
+    apply in_neighbouring in Hin. destruct Hin as [Hp|Hc]; [congruence|].
+    destruct (ts_ch _ T k kn nb Ek Hc) as (nbn & Enb & Pnb).
+    assert (Hle : dget (distance_to_node s r) nb <= m) by lia.
+    pose proof (IH nb nbn k Hle Enb Pnb). lia.
+Qed.
+
+(* ---- the visiting tree covers the dictionary ------------------------------------------------------------------------ *)
+Lemma tree_of_keys T0 : forall t, tree_of T0 t -> forall k, In k (ids t) -> exists nd, aget k T0 = Some nd.
+Proof.
+  induction t as [n kids IH] using rtree_ind2. intros Ht k Hk. inversion Ht as [? ? nd En Hp Hf]; subst.
+  cbn [ids] in Hk. destruct Hk as [<-|Hk]; [eauto|]. apply in_flat_map in Hk. destruct Hk as (c & Hc & Hk).
+  rewrite Forall_forall in IH, Hf. apply (IH c Hc (Hf c Hc) k Hk).
+Qed.
+
+Lemma tree_of_children T0 : forall t, tree_of T0 t -> forall q qn k, In q (ids t) -> aget q T0 = Some qn -> In k (children qn) ->
+  In k (ids t).
+Proof.
+  induction t as [n kids IH] using rtree_ind2. intros Ht q qn k Hq Eq Hk. inversion Ht as [? ? nd En Hp Hf]; subst.
+  cbn [ids] in *. destruct Hq as [<-|Hq].
+  - rewrite En in Eq. injection Eq as <-. right. apply (Permutation_in _ (Permutation_sym Hp)) in Hk.
+    apply in_map_iff in Hk. destruct Hk as (c & <- & Hc). apply in_flat_map. exists c. split; [exact Hc|]. destruct c. cbn. auto.
+  - right. apply in_flat_map in Hq. destruct Hq as (c & Hc & Hq). apply in_flat_map. exists c. split; [exact Hc|].
+    rewrite Forall_forall in IH, Hf. apply (IH c Hc (Hf c Hc) q qn k Hq Eq Hk).
+Qed.
+
+Lemma tree_of_cover T0 t rn : tstruct T0 -> tree_of T0 t -> aget (RTree.rid t) T0 = Some rn -> parent rn = None ->
+  forall k, In k (akeys T0) -> In k (ids t).
+Proof.
+  intros T Ht Er Pr. destruct (ts_acyc _ T) as [rank Hrank].
+  assert (H : forall m k, rank k <= m -> In k (akeys T0) -> In k (ids t)).
+  { induction m as [|m IH]; intros k Hm Hk; apply keys_aget in Hk; destruct Hk as [kn Ek];
+      (destruct (parent kn) as [q|] eqn:Pk;
+       [|rewrite (ts_root _ T k kn (RTree.rid t) rn Ek Pk Er Pr); destruct t; cbn; auto]).
+    - pose proof (Hrank k kn q Ek Pk). lia.
+    - pose proof (Hrank k kn q Ek Pk) as Hlt. destruct (ts_par _ T k kn q Ek Pk) as (qn & Eq & Hin).
+      apply (tree_of_children T0 t Ht q qn k); [|exact Eq|exact Hin].
+      apply IH; [lia|eapply aget_Some_keys; eauto]. }
+  intros k Hk. apply (H (rank k) k (le_n _) Hk).
+Qed.
+
+(* ---- root_update --------------------------------------------------------------------------------------------------- *)
+Section Root.
+  Variables (fixed : bool) (bcoff : nat) (tmp : id).
+  Notation bc := (bcid bcoff).
+  Notation rid := RTree.rid.
+
+  Lemma key_iff_aget {V} (l : list (nat * V)) k : In k (akeys l) <-> aget k l <> None.
+  Proof.
+    split.
+    - intros H. apply keys_aget in H. destruct H as [v E]. congruence.
+    - intros H. destruct (aget k l) eqn:E; [eapply aget_Some_keys; eauto|congruence].
+  Qed.
+
+  Theorem root_update_effect t cs cs' :
+    wfb (fst cs) = true -> bc_fresh bcoff (nodes (fst cs)) -> aget tmp (nodes (fst cs)) = None ->
+    root_update fixed bcoff tmp t cs = Some cs' ->
+    same_tree (nodes (fst cs)) (nodes (fst cs')) /\ tstruct (nodes (fst cs')) /\
+    (forall k, In k (akeys (nodes (fst cs))) -> aget (bc k) (nodes (fst cs')) = None) /\
+    root (fst cs') = root (fst cs) /\ snd cs' = root (fst cs') /\ root (fst cs') = Some (rid t) /\
+    grows (fst cs) (fst cs') /\
+    (forall k, In k (akeys (nodes (fst cs'))) -> k <> rid t -> Qnode (fst cs') k) /\
+    (forall k kn, aget k (nodes (fst cs)) = Some kn -> parent kn <> None ->
+                  exists kn', aget k (nodes (fst cs')) = Some kn' /\ parent kn' = parent kn).
+  Proof.
+    destruct cs as [g oc]. destruct t as [r kids]. cbn [fst snd RTree.rid]. intros Wb F Htmp H.
+    pose proof (wfb_wf g Wb) as W. pose proof (wf_tstruct g W) as T.
+    unfold root_update in H. cbv zeta in H. cbn [fst snd] in H.
+    destruct (root g) as [r0|] eqn:Er0; [|discriminate].
+    destruct (Nat.eqb_spec r0 r) as [->|]; [|cbn [negb] in H; discriminate]. cbn [negb] in H.
+    destruct oc as [c|]; [|cbn [negb] in H; discriminate]. destruct (Nat.eqb_spec c r) as [->|]; [|cbn [negb] in H; discriminate]. cbn [negb] in H.
+    destruct (tree_matchb (nodes g) (RNode r kids) && nodupb (ids (RNode r kids))) eqn:Hguard; [|discriminate]. cbn [negb] in H.
+    apply andb_true_iff in Hguard. destruct Hguard as [Hm Hnd]. apply nodupb_NoDup in Hnd.
+    assert (Htr : tree_of (nodes g) (RNode r kids)).
+    { apply tree_matchb_tree_of; [|exact Hm]. intros k n E. apply (ts_chnd _ T k n E). }
+    destruct (aget r (nodes g)) as [rn|] eqn:Ern; [|discriminate].
+    destruct (negb _); [discriminate|].
+    destruct (update_children _ _ _ _ _ _ _) as [g1|] eqn:Eloop; [|discriminate].
+    destruct (pull_tensor bcoff g1 (view_of g) r) as [g2|] eqn:Epull; [|discriminate].
+    destruct (contract_all_children g2 r) as [g3|] eqn:Ecac; [|discriminate].
+    destruct (evolve g3 r) as [[g4 u]|] eqn:Eev; [|discriminate].
+    destruct (aget r (nodes g4)) as [nd|] eqn:End; [|discriminate].
+    destruct (node_replace_tensor nd _ None) as [nd'|] eqn:Enr; [|discriminate].
+    injection H as <-. cbn [fst snd upd_tensors upd_nodes nodes tensors root defs].
+    (* the root *)
+    destruct (wf_root g W) as (r' & rn' & Er' & Ern' & Prn' & Huniq). rewrite Er0 in Er'. injection Er' as <-.
+    rewrite Ern in Ern'. injection Ern' as <-.
+    set (T0 := nodes g) in *.
+    inversion Htr as [? ? nd0 End0 Hkids Hforall]; subst. rewrite Ern in End0. injection End0 as <-.
+    cbn [ids] in Hnd. inversion Hnd as [|? ? Hrk Hndk]; subst.
+    assert (KeyT : forall k, In k (r :: flat_map ids kids) -> In k (akeys T0)).
+    { intros k Hk. destruct (tree_of_keys T0 _ Htr k Hk) as [x Ex]. eapply aget_Some_keys; eauto. }
+    assert (HrK : In r (akeys T0)) by (apply KeyT; left; reflexivity).
+    assert (InA : forall z, In z (children rn) <-> In z (map rid kids)).
+    { intros z. split; intros Hz; [apply (Permutation_in _ (Permutation_sym Hkids) Hz)|apply (Permutation_in _ Hkids Hz)]. }
+    assert (ParK : forall z, In z (children rn) -> exists c0, aget z T0 = Some c0 /\ parent c0 = Some r).
+    { intros z Hz. apply (ts_ch _ T r rn z Ern Hz). }
+    assert (NdA : NoDup (children rn)) by apply (ts_chnd _ T r rn Ern).
+    set (X := children rn) in *.
+    assert (XI : forall x, In x X -> In x (flat_map ids kids)) by (intros x Hx; apply in_map_rid_flat; apply InA; exact Hx).
+    assert (KeyA : forall z, In z X -> In z (akeys T0)) by (intros z Hz; apply KeyT; right; apply XI; exact Hz).
+    assert (Agree : forall k, In k (flat_map ids kids) -> agree (nodes g) T0 k).
+    { intros k Hk. destruct (tree_of_keys T0 _ Htr k (or_intror Hk)) as [x Ex]. exists x, x. auto. }
+    assert (IHP : Forall (P fixed bcoff tmp) kids) by (apply Forall_forall; intros c _; apply update_node_effect).
+    destruct (children_loop fixed bcoff tmp kids IHP g g1 (view_of g) (Some r) T0 r rn [] Eloop T F Hforall Hndk)
+      as (K1 & K2 & K3 & K4 & K5 & K6 & K7 & K8 & K9); auto.
+    { intros c Hc. apply ParK. apply InA. apply in_map. exact Hc. }
+    { apply (ts_nd _ T). }
+    { intros k Hk. apply F. apply KeyT. right. exact Hk. }
+    { fold X. rewrite map_sub_nil, with_children_same. exact Ern. }
+    { intros c Hc. rewrite Prn'. discriminate. }
+    { apply same_tree_refl. }
+    rewrite app_nil_r in K4. fold X in K4.
+    rewrite (map_sub_all bcoff _ X) in K4 by (intros z Hz; rewrite <- in_rev; apply InA; exact Hz).
+    (* pull, contract_all_children *)
+    destruct (pull_tensor_effect _ _ _ _ _ Epull) as (newn & ndp & ot & q0 & P1 & P2 & P3 & P4 & P5 & P6 & P7 & P8 & P9 & P10 & P11 & P12 & P13 & P14).
+    rewrite K4 in P1. injection P1 as <-. cbn [with_children parent children] in P3, P4.
+    unfold contract_all_children in Ecac. rewrite P8, aget_aset_same, P4 in Ecac.
+    assert (Hnd2 : NoDup (akeys (nodes g2))) by (rewrite P8; apply NoDup_akeys_aset; exact K1).
+    assert (En2 : aget r (nodes g2) = Some ndp) by (rewrite P8; apply aget_aset_same).
+    assert (Cn2 : children ndp = map bc X ++ []) by (rewrite app_nil_r; exact P4).
+    assert (A1 : ~ In r X) by (intros Hc; apply Hrk; apply XI; exact Hc).
+    assert (A2 : ~ In r (map bc X)).
+    { intros Hc. apply in_map_iff in Hc. destruct Hc as (z & Ez & Hz). apply (fresh_ne bcoff T0 z r F); auto. }
+    assert (A3 : forall x x', In x X -> In x' X -> bc x' <> x) by (intros x x' Hx Hx'; apply (fresh_ne bcoff T0); auto).
+    assert (A4 : forall x, In x X -> exists bn, aget (bc x) (nodes g2) = Some bn /\ parent bn = Some r /\ children bn = [x]).
+    { intros x Hx. rewrite P8, aget_aset_other by (intros E; apply A2; rewrite <- E; apply in_map; exact Hx).
+      apply InA in Hx. apply in_map_iff in Hx. destruct Hx as (c & <- & Hc). apply K3. exact Hc. }
+    destruct (contract_fold bcoff r X g2 g3 ndp [] Ecac Hnd2 NdA A1 A2 A3 En2 Cn2 A4)
+      as (nn3 & F1 & F2 & F3 & F4 & F5 & F6 & F7 & F8 & F9 & F10 & F11).
+    cbn [app] in F3.
+    destruct (evolve_effect _ _ _ _ Eev) as (nd3 & t3 & V1 & V2 & V3 & V4 & V5 & V6 & V7 & V8 & V9).
+    rewrite F1 in V1. injection V1 as <-.
+    rewrite V3, aget_aset_same in End. injection End as <-.
+    assert (Hnd' : parent nd' = None /\ children nd' = X).
+    { unfold node_replace_tensor in Enr. destruct (list_eqb _ _); [|discriminate]. injection Enr as <-.
+      cbn. rewrite F2, P3, F3. auto. }
+    destruct Hnd' as [Pnd' Cnd'].
+    set (Lf := aset r nd' (nodes g4)).
+    (* lookups in the final dictionary *)
+    assert (LookR : aget r Lf = Some nd') by (apply aget_aset_same).
+    assert (Look : forall k, k <> r -> aget k Lf =
+              if memb k (map bc X) then None
+              else if memb k X then option_map (fun xn => with_parent xn (Some r)) (aget k (nodes g1))
+              else aget k (nodes g1)).
+    { intros k Hk. unfold Lf. rewrite aget_aset_other, V3, aget_aset_other by exact Hk.
+      destruct (memb k (map bc X)) eqn:MB.
+      - apply memb_In in MB. apply in_map_iff in MB. destruct MB as (z & <- & Hz). apply (F4 z Hz).
+      - apply memb_false in MB. destruct (memb k X) eqn:MX.
+        + apply memb_In in MX. destruct (F4 k MX) as [_ E]. rewrite E, P8, aget_aset_other by exact Hk. reflexivity.
+        + apply memb_false in MX. rewrite F5 by assumption. rewrite P8, aget_aset_other by exact Hk. reflexivity. }
+    assert (NdLf : NoDup (akeys Lf)).
+    { unfold Lf. apply NoDup_akeys_aset. rewrite V3. apply NoDup_akeys_aset. exact F6. }
+    (* every identifier of the subtrees: same parent as in T0, children up to order *)
+    assert (Sub : forall k, In k (flat_map ids kids) ->
+              exists a b, aget k Lf = Some a /\ aget k T0 = Some b /\ parent a = parent b /\ Permutation (children a) (children b)).
+    { intros k Hk. apply in_flat_map in Hk. destruct Hk as (c & Hc & Hk).
+      destruct (K2 c Hc k Hk) as (a' & b' & Ea' & Eb' & Ca' & Pa2).
+      assert (Kfl : In k (flat_map ids kids)) by (apply (in_flat_ids c kids k Hc Hk)).
+      assert (K_r : k <> r) by (intros E; apply Hrk; rewrite <- E; exact Kfl).
+      assert (MB : memb k (map bc X) = false).
+      { apply memb_false. intros Hc'. apply in_map_iff in Hc'. destruct Hc' as (z & Ez & Hz).
+        apply (fresh_ne bcoff T0 z k F); [apply KeyA; exact Hz|apply KeyT; right; exact Kfl|exact Ez]. }
+      rewrite (Look k K_r), MB, Ea'. destruct (memb k X) eqn:MX.
+      - apply memb_In in MX. destruct (ParK k MX) as (c0 & Ec0 & Pc0). rewrite Eb' in Ec0. injection Ec0 as <-.
+        exists (with_parent a' (Some r)), b'. cbn. auto.
+      - apply memb_false in MX. exists a', b'. split; [reflexivity|]. split; [exact Eb'|]. split; [|exact Ca'].
+        rewrite Pa2. destruct (Nat.eqb_spec k (rid c)) as [E|_]; [|reflexivity].
+        exfalso. apply MX. apply InA. rewrite E. apply in_map. exact Hc. }
+    assert (Cover : forall k, In k (akeys T0) -> In k (r :: flat_map ids kids)).
+    { apply (tree_of_cover T0 (RNode r kids) rn T Htr Ern Prn'). }
+    assert (BcGone : forall k, In k (akeys T0) -> aget (bc k) Lf = None).
+    { intros k Hk. assert (Kr : bc k <> r) by (apply (fresh_ne bcoff T0 k r F); auto).
+      rewrite (Look _ Kr). destruct (memb (bc k) (map bc X)) eqn:MB; [reflexivity|].
+      destruct (memb (bc k) X) eqn:MX.
+      { apply memb_In in MX. exfalso. apply (fresh_ne bcoff T0 k (bc k) F Hk); [apply KeyA; exact MX|reflexivity]. }
+      apply memb_false in MB. rewrite K5.
+      - apply F. exact Hk.
+      - intros Hc. apply (fresh_ne bcoff T0 k (bc k) F Hk); [apply KeyT; right; exact Hc|reflexivity].
+      - exact Kr.
+      - intros Hc. apply MB. apply in_map_iff in Hc. destruct Hc as (z & <- & Hz). apply in_map. apply InA. exact Hz. }
+    assert (Same : forall k, match aget k T0, aget k Lf with
+                             | Some n, Some n' => parent n = parent n' /\ Permutation (children n) (children n')
+                             | None, None => True
+                             | _, _ => False
+                             end).
+    { intros k. destruct (aget k T0) as [kn|] eqn:Ek.
+      - assert (Hk : In k (akeys T0)) by (eapply aget_Some_keys; eauto).
+        destruct (Cover k Hk) as [<-|Hfl].
+        + rewrite LookR. rewrite Ern in Ek. injection Ek as <-. rewrite Pnd', Cnd'. auto.
+        + destruct (Sub k Hfl) as (a & b & Ea & Eb & Pa & Ca). rewrite Ea. rewrite Ek in Eb. injection Eb as <-.
+          split; [symmetry; exact Pa|symmetry; exact Ca].
+      - assert (Hk : ~ In k (akeys T0)) by (apply aget_None; exact Ek).
+        assert (K_r : k <> r) by (intros ->; contradiction).
+        rewrite (Look k K_r). destruct (memb k (map bc X)) eqn:MB; [exact I|].
+        destruct (memb k X) eqn:MX.
+        { apply memb_In in MX. exfalso. apply Hk. apply KeyA. exact MX. }
+        apply memb_false in MB. rewrite K5.
+        + fold T0. rewrite Ek. exact I.
+        + intros Hc. apply Hk. apply KeyT. right. exact Hc.
+        + exact K_r.
+        + intros Hc. apply MB. apply in_map_iff in Hc. destruct Hc as (z & <- & Hz). apply in_map. apply InA. exact Hz. }
+    assert (KeysEq : forall k, In k (akeys T0) <-> In k (akeys Lf)).
+    { intros k. rewrite !key_iff_aget. specialize (Same k). destruct (aget k T0), (aget k Lf); split; intros; try congruence; contradiction. }
+    assert (ST : same_tree T0 Lf).
+    { split; [|exact Same]. rewrite <- !(length_akeys). apply Permutation_length.
+      apply NoDup_Permutation; [apply (ts_nd _ T)|exact NdLf|exact KeysEq]. }
+    assert (TLf : tstruct Lf) by (apply (tstruct_same_tree _ _ T ST NdLf)).
+    assert (GrF : grows g g4).
+    { eapply grows_trans; [exact K8|]. eapply grows_trans; [apply grows_same; eassumption|].
+      eapply grows_trans; [exact F8|exact V7]. }
+    split; [exact ST|]. split; [exact TLf|]. split; [exact BcGone|].
+    split; [rewrite V6, F7, P10, K6; exact Er0|]. split; [rewrite V6, F7, P10, K6; symmetry; exact Er0|].
+    split; [rewrite V6, F7, P10, K6; exact Er0|].
+    split.
+    { destruct GrF as [G1 G2 G3 G4]. constructor; cbn; assumption. }
+    split.
+    { intros k Hk Hkr. apply KeysEq in Hk. destruct (Cover k Hk) as [E|Hfl]; [congruence|].
+      assert (MB : memb k (map bc X) = false).
+      { apply memb_false. intros Hc'. apply in_map_iff in Hc'. destruct Hc' as (z & Ez & Hz).
+        apply (fresh_ne bcoff T0 z k F); [apply KeyA; exact Hz|exact Hk|exact Ez]. }
+      set (gf := {| nodes := Lf; tensors := aset r u (tensors g4); root := root g4; dims := dims g4; next_wire := next_wire g4;
+                    next_atom := next_atom g4; defs := defs g4; atab := atab g4 |}).
+      apply (Qnode_frame g1 gf k (K9 k Hfl)).
+      - cbn. destruct GrF as [G1 _ _ _]. destruct K8 as [G1' _ _ _].
+        eapply incl_tran; [|apply (gr_defs _ _ V7)]. eapply incl_tran; [|apply (gr_defs _ _ F8)]. rewrite P11. apply incl_refl.
+      - intros ndk Endk. cbn [gf nodes]. rewrite (Look k Hkr), MB, Endk. destruct (memb k X); eexists; split; reflexivity.
+      - cbn [gf tensors]. rewrite aget_aset_other, V4, aget_aset_other by exact Hkr.
+        rewrite F11; [|exact Hkr|apply memb_false; exact MB]. rewrite P9, aget_aset_other by exact Hkr. reflexivity. }
+    intros k kn Ek Pk. specialize (Same k). fold T0 in Ek. rewrite Ek in Same.
+    destruct (aget k Lf) as [kn'|]; [|contradiction]. exists kn'. split; [reflexivity|]. symmetry. apply Same.
+  Qed.
+
+  (* the returned state is canonical at the root: every other node is one Q atom of a QR kernel call whose bond
+     wire is the node's parent leg *)
+  Theorem root_update_iso t cs cs' :
+    wfb (fst cs) = true -> bc_fresh bcoff (nodes (fst cs)) -> aget tmp (nodes (fst cs)) = None ->
+    root_update fixed bcoff tmp t cs = Some cs' -> iso_check cs' = true.
+  Proof.
+    intros Wb F Htmp H.
+    destruct (root_update_effect t cs cs' Wb F Htmp H) as (ST & TLf & _ & R1 & R2 & R3 & _ & Q & Par).
+    pose proof (wfb_wf _ Wb) as W. pose proof (wf_tstruct _ W) as T.
+    destruct (wf_root _ W) as (r & rn & Er & Ern & Prn & Huniq).
+    assert (Hr : rid t = r) by (rewrite R1, Er in R3; congruence).
+    destruct cs' as [sf oc]. cbn [fst snd] in *. rewrite R3 in R2. subst oc. rewrite Hr in *.
+    assert (Hc : amem r (nodes (fst cs)) = true) by (apply amem_aget; eauto).
+    apply (good_iso (fst cs) sf r T Hc TLf ST). intros k Hk Hkr.
+    destruct (Q k Hk Hkr) as (nd & tk & a & df & E1 & E2 & E3 & E4 & E5 & E6 & E7 & E8).
+    assert (Hk0 : In k (akeys (nodes (fst cs)))) by (apply (same_tree_keys _ _ k ST); exact Hk).
+    apply keys_aget in Hk0. destruct Hk0 as [kn Ekn].
+    destruct (parent kn) as [q|] eqn:Pk; [|exfalso; apply Hkr; apply (Huniq k kn Ekn Pk)].
+    destruct (Par k kn Ekn ltac:(congruence)) as (kn' & Ekn' & Pkn'). rewrite E1 in Ekn'. injection Ekn' as <-.
+    exists nd, tk, a, 0, q, df.
+    split; [exact E1|]. split; [exact E2|]. split; [exact E3|].
+    split; [apply in_neighbouring; left; congruence|].
+    split; [apply (dist_parent_root (fst cs) r rn T Ern Prn _ k kn q (le_n _) Ekn Pk)|].
+    split; [unfold neighbour_index; rewrite Pkn', Pk, Nat.eqb_refl; reflexivity|].
+    auto.
+  Qed.
+End Root.
+
+
+(* ---- shapes: the bond dimension a new basis gets (local rule) ------------------------------------------------------ *)
+(* the two models use the same rule for the new leg of a QR decomposition *)
+Lemma qr_bond_new_leg rows cols :
+  qr_bond_dim Keep rows cols = BUG.qr_new_leg true rows cols /\ qr_bond_dim Reduced rows cols = BUG.qr_new_leg false rows cols.
+Proof. split; reflexivity. Qed.
+
+Lemma permute_seq1_tl {A} (d : A) (l : list A) k : length l = S k -> permute d (seq 1 k) l = tl l.
+Proof.
+  destruct l as [|x t]; [discriminate|]. cbn [length tl]. intros [= <-]. unfold permute.
+  rewrite (map_nth_seq d (x :: t) 1 (length t)) by (cbn; lia). cbn [skipn]. apply firstn_all.
+Qed.
+
+Lemma map_tl' {A B} (f : A -> B) l : map f (tl l) = tl (map f l).
+Proof. destruct l; reflexivity. Qed.
+
+Lemma permute_last_first (l : list wire) w : permute 0 (length l :: seq 0 (length l)) (l ++ [w]) = w :: l.
+Proof.
+  unfold permute. cbn [map]. rewrite app_nth2 by lia. rewrite Nat.sub_diag. cbn [nth]. f_equal.
+  rewrite (map_nth_seq 0 (l ++ [w]) 0 (length l)) by (rewrite app_length; cbn; lia).
+  rewrite skipn_O. apply firstn_app_len.
+Qed.
+
+Lemma last_leg_first_axes (ow : list wire) w a :
+  axes (last_leg_first {| axes := ow ++ [w]; atoms := [a]; bnd := [] |}) = w :: ow.
+Proof.
+  unfold last_leg_first. cbn [axes]. rewrite app_length. cbn [length]. rewrite Nat.add_1_r.
+  destruct (length ow) as [|j] eqn:El.
+  - destruct ow; [reflexivity|discriminate].
+  - unfold s_transpose. cbn [axes]. rewrite <- El. apply permute_last_first.
+Qed.
+
+Section Shapes.
+  Variable fixed : bool.
+
+  (* compute_new_basis_tensor / compute_fixed_size_new_basis_tensor on a non-root node whose evolved tensor u has the
+     legs (parent, children..., open...): the new basis has the legs (new bond, children..., open...); the dimension
+     entered in the table for the new bond is qr_new_leg of Sched/BUG.v applied to the product of the other legs and
+     to r (fixed rank: KEEP) resp. r_old + r (rank-adaptive: concatenation along the parent leg, REDUCED) *)
+  Lemma new_basis_shape g nd oldt u g' newb :
+    new_basis fixed g nd oldt u = Some (g', newb) -> parent nd <> None ->
+    length (axes u) = nlegs nd -> nvirt nd <= nlegs nd -> axes oldt = axes u ->
+    dims_ok g -> (forall w, In w (axes u) -> w < next_wire g) ->
+    exists nw, axes newb = nw :: tl (axes u) /\
+      let du := map (wdim g) (axes u) in
+      let cols := if fixed then hd 0 du else hd 0 (map (wdim g) (axes oldt)) + hd 0 du in
+      In (nw, BUG.qr_new_leg fixed (prod_list (tl du)) cols) (dims g') /\
+      (fixed = true -> map (wdim g') (axes newb) = map (wdim g') (axes u)).
+  Proof.
+    intros H Hpar Hlen Hv Hold Hdok Hwires. unfold new_basis in H.
+    assert (Hr : is_root nd = false) by (unfold is_root; destruct (parent nd); [reflexivity|congruence]).
+    rewrite Hr in H.
+    assert (Hnp : nparents nd = 1) by (unfold nparents; destruct (parent nd); [reflexivity|congruence]).
+    assert (Hql : seq (nparents nd) (length (children nd)) ++ seq (nvirt nd) (nopen nd) = seq 1 (nlegs nd - 1)).
+    { unfold nopen, nvirt in *. rewrite Hnp in *. rewrite <- seq_app. f_equal. lia. }
+    rewrite Hql in H.
+    assert (HS : nlegs nd = S (nlegs nd - 1)) by (unfold nvirt in Hv; rewrite Hnp in Hv; lia).
+    destruct fixed.
+    - destruct (qr_kernel g u _ [0] Keep) as [[[g1 q] r]|] eqn:Eq; [|discriminate].
+      destruct (qr_kernel_effect _ _ _ _ _ _ _ _ Eq) as (_ & _ & _ & _ & Hq & _ & Hd & _ & _).
+      destruct (list_eqb _ _) eqn:Hs; [|discriminate]. apply list_eqb_eq in Hs. injection H as <- <-.
+      rewrite (permute_seq1_tl 0 (axes u) (nlegs nd - 1)) in Hq, Hd by (transitivity (nlegs nd); [exact Hlen|exact HS]).
+      exists (next_wire g). split; [rewrite Hq; apply last_leg_first_axes|]. cbv zeta. split.
+      + rewrite Hd. apply in_or_app. right. left. f_equal. unfold BUG.qr_new_leg, qr_bond_dim.
+        unfold permute. cbn [map]. destruct (axes u) as [|a0 ta]; [cbn in Hlen; lia|]. cbn. lia.
+      + intros _. exact Hs.
+    - destruct (concat_axis g 0 oldt u) as [[g1 cc]|] eqn:Ec; [|discriminate].
+      destruct (concat_axis_effect _ _ _ _ _ _ Ec) as (_ & _ & _ & Gr1 & Hcc & Hd1 & Hnw1 & Hsh & Hax).
+      destruct (qr_kernel g1 cc _ [0] Reduced) as [[[g2 q] r]|] eqn:Eq; [|discriminate].
+      destruct (qr_kernel_effect _ _ _ _ _ _ _ _ Eq) as (_ & _ & _ & _ & Hq & _ & Hd & _ & Hperm).
+      injection H as <- <-.
+      assert (Hlcc : length (axes cc) = S (nlegs nd - 1)).
+      { apply Permutation_length in Hperm. rewrite app_length, !seq_length in Hperm. cbn in Hperm. lia. }
+      rewrite (permute_seq1_tl 0 (axes cc) (nlegs nd - 1) Hlcc) in Hq, Hd.
+      assert (Eax : tl (axes cc) = tl (axes u)).
+      { rewrite Hcc, Hold. cbn [axes]. destruct (axes u); reflexivity. }
+      exists (next_wire g1). split; [rewrite Hq, last_leg_first_axes; f_equal; exact Eax|]. cbv zeta. split; [|discriminate].
+      rewrite Hd. apply in_or_app. right. left. f_equal. unfold BUG.qr_new_leg, qr_bond_dim. f_equal.
+      + transitivity (prod_list (map (wdim g1) (tl (axes u)))); [f_equal; f_equal; exact Eax|].
+        rewrite !map_tl'. f_equal. f_equal. apply map_ext_in. intros w Hw. apply (gr_wdim _ _ Gr1). apply Hwires. exact Hw.
+      + rewrite Hcc. cbn [axes]. rewrite Hold. destruct (axes u) as [|a0 ta] eqn:Eu; [cbn in Hlen; lia|].
+        cbn [set_nth permute map nth prod_list hd].
+        assert (Hnone : aget (next_wire g) (dims g) = None).
+        { apply aget_None. intros Hin. pose proof (Hdok _ Hin). lia. }
+        assert (Hw : wdim g1 (next_wire g) = wdim g a0 + wdim g a0).
+        { unfold wdim at 1. rewrite Hd1, aget_app, Hnone. cbn [aget]. rewrite Nat.eqb_refl. rewrite Hold. cbn [map nth]. reflexivity. }
+        unfold prod_list. cbn [fold_right]. rewrite Hw. lia.
+  Qed.
+End Shapes.
+
+
+(* ---- the basis-change matrices as diagrams ------------------------------------------------------------------------ *)
+(* M_n = old_basis_n^dagger-side contraction: the block of the subtree of n between the state of old bases and the
+   conjugated copy of the state of new bases.  Its diagram: two legs (old parent wire of n, conjugated new parent
+   wire of n); atoms = the old atoms and the (offset) new atoms of the subtree of n, each once; every edge wire of
+   both states strictly inside the subtree is bound (children legs are paired through the children's matrices: the
+   recursion), and the glued pairs are exactly (old open wire of k, conjugated new open wire of k), k in the subtree *)
+Theorem bc_diagram_closed woff aoff old new n :
+  bc_okb woff aoff old new n = true ->
+  exists p t g,
+    (exists nd, aget n (nodes old) = Some nd /\ parent nd = Some p) /\
+    Closed.tree_of (S (length (nodes old))) old n = Some t /\
+    bc_diagram woff aoff old new n p = Some g /\
+    let bra := conj_store woff aoff new in
+    Blocks.gaxes g = [Closed.up_wire old n; Closed.up_wire bra n] /\
+    Permutation (Blocks.gatoms g) (Closed.all_atoms old bra (Closed.rnodes t)) /\
+    Permutation (Blocks.gbnd g) (Closed.edge_wires old bra (Closed.rdesc t) ++ Closed.inner_bnd old bra (Closed.rnodes t)) /\
+    Permutation (Blocks.gglue g) (Closed.open_pairs old bra (Closed.rnodes t)).
+Proof.
+  unfold bc_okb. destruct (aget n (nodes old)) as [nd|] eqn:En; [|discriminate].
+  destruct (parent nd) as [p|] eqn:Pn; [|discriminate].
+  destruct (Closed.tree_of (S (length (nodes old))) old n) as [t|] eqn:Et; [|discriminate].
+  rewrite andb_true_iff. intros [Hwf Hlen]. apply Nat.leb_le in Hlen.
+  apply ClosedProofs.wf_subb_sound in Hwf.
+  assert (Hrid : Closed.rid t = n).
+  { cbn [Closed.tree_of] in Et. rewrite En in Et. destruct (all_some _) as [cs|]; [|discriminate]. cbn in Et.
+    injection Et as <-. reflexivity. }
+  destruct (ClosedProofs.block_two_subtree_closed old (conj_store woff aoff new) p t (length (nodes old)) Hwf Hlen)
+    as (g & Hg & H1 & H2 & H3 & H4).
+  rewrite Hrid in *. exists p, t, g. split; [eauto|]. split; [reflexivity|]. split; [exact Hg|]. cbv zeta. auto.
+Qed.
+
